@@ -278,10 +278,21 @@ func ReadFixedString(buf *bytes.Buffer, fixedLen int) (string, error) {
 func ReadFixedStringTrimPadding(buf *bytes.Buffer, fixedLen int, padChar rune, padLeft bool) (string, error) {
 	strBytes := make([]byte, fixedLen)
 	_, err := io.ReadFull(buf, strBytes)
+	// Strip exactly the byte the writer pads with (byte(padChar)), byte-wise:
+	// a rune cutset would treat pad values >= 0x80 as UTF-8 sequences.
+	pad := byte(padChar)
 	if padLeft {
-		return string(bytes.TrimLeft(strBytes, string(padChar))), err
+		start := 0
+		for start < len(strBytes) && strBytes[start] == pad {
+			start++
+		}
+		return string(strBytes[start:]), err
 	}
-	return string(bytes.TrimRight(strBytes, string(padChar))), err
+	end := len(strBytes)
+	for end > 0 && strBytes[end-1] == pad {
+		end--
+	}
+	return string(strBytes[:end]), err
 }
 
 func ReadFixedStringList[T constraints.Unsigned](buf *bytes.Buffer, fixedLen int) ([]string, error) {
